@@ -21,7 +21,7 @@ import re
 from optilint.model import FuncVal, ExtVal, walk_local, norm_src, dotted
 from optilint.cfg import cfg_of
 from optilint.core import Incomplete
-from .common import link_cone, calls_in, actual, src, expand, const_value
+from .common import Unifier, link_cone, calls_in, actual, src, expand, const_value
 
 LEVEL = "other"
 RULE_TEXT = ("obligations = (scope in cone x link-integrity) + (custom_vjp function x contract clause) + "
@@ -480,7 +480,21 @@ def d4(ctx):
     if not loops:
         raise Incomplete("CG loop not found")
     loop = loops[0]
-    ddefs = ccfg.reaching(loop, "d")
+    # roles of the CG locals, read off the call of the inner-product recurrence (its parameter names are the roles)
+    rec = ctx.need(f"{ES}:cg_inner_products_preconditioned")
+    rps = rec.params()        # alpha, beta, zd, dd, rPr, z, d
+    role = {}
+    for n in ccfg.nodes:
+        if n.kind == "stmt" and n.ast is not None and loop in n.loops:
+            for c in ast.walk(n.ast):
+                if isinstance(c, ast.Call) and isinstance(c.func, ast.Name) and len(c.args) == len(rps) and all(isinstance(a, ast.Name) for a in c.args):
+                    vals = ctx.repo.resolve(c.func, cg)
+                    if any(isinstance(v, FuncVal) and v.scope.name.startswith("cg_inner_products") for v in vals):
+                        role = {p: a.id for p, a in zip(rps, c.args)}
+    if not role:
+        raise Incomplete("CG recurrence call not found: roles of the CG locals unknown")
+    dn, zn, an, rprn = role[rps[6]], role[rps[5]], role[rps[0]], role[rps[4]]
+    ddefs = ccfg.reaching(loop, dn)
     pre = [d for d in ddefs if loop not in d.loops]
     ok = False
     shown = "?"
@@ -492,17 +506,21 @@ def d4(ctx):
             and isinstance(e.operand.args[0], ast.Name) and e.operand.args[0].id == rname
     ctx.decide(rule, ok, cg, pre[0].ast if pre else None, construct="cg-first-direction",
                detail=f"d0 = {shown}", bad_detail=f"first CG direction is `{shown}`, not -precond(r): the solver no longer minimises r.z + 1/2 z.H z")
-    # step: z + alpha*d with alpha = rPr/curvature
-    zs = [n for n in ccfg.nodes if n.kind == "stmt" and isinstance(n.ast, ast.Assign) and isinstance(n.ast.targets[0], ast.Name)
-          and n.ast.targets[0].id == "zNp1"]
-    ok = len(zs) == 1 and src(expand(ccfg, zs[0], zs[0].ast.value, stop=("z", "d", "rPr", "curvature"))) in ("z + rPr / curvature * d",)
-    ctx.decide(rule, ok, cg, zs[0].ast if zs else None, construct="cg-step",
-               detail="z_{k+1} = z + (rPr/curvature) d",
-               bad_detail="CG step is not z + (rPr/curvature)*d")
+    # step: z + alpha*d with alpha = rPr/curvature, curvature = d.(H d)
+    u = Unifier(cg)
+    u.bind = {"z": zn, "d": dn, "alpha": an, "rPr": rprn}
+    hv = ps[2]
+    c1 = u.assigns(f"d @ {hv}(d)", target="curvature")
+    c2 = u.assigns("rPr / curvature", target="alpha")
+    c3 = u.assigns("z + alpha * d", target="zNp1")
+    ok = len(c1) == 1 and len(c2) == 1 and len(c3) == 1
+    ctx.decide(rule, ok, cg, c3[0] if c3 else None, construct="cg-step",
+               detail="z_{k+1} = z + (rPr/curvature) d, curvature = d.(H d)",
+               bad_detail="CG step is not z + (rPr/curvature)*d with curvature = d.(H d)")
     # residual recurrence r += alpha*H d
     rs = [n for n in ccfg.nodes if n.kind == "stmt" and isinstance(n.ast, ast.AugAssign) and isinstance(n.ast.target, ast.Name)
           and n.ast.target.id == rname]
-    ok = len(rs) == 1 and isinstance(rs[0].ast.op, ast.Add) and "hess_vec_func(d)" in src(rs[0].ast.value) and "alpha" in src(rs[0].ast.value)
+    ok = len(rs) == 1 and isinstance(rs[0].ast.op, ast.Add) and u.match(rs[0].ast.value, f"alpha * {hv}(d)")
     ctx.decide(rule, ok, cg, rs[0].ast if rs else None, construct="cg-residual-recurrence",
                detail="r += alpha*H d", bad_detail="CG residual recurrence is not r += alpha*hess_vec_func(d)")
     # both reverse rules: rhs is the cotangent itself, lam = results[0] unnegated, cotangent unnegated
@@ -525,6 +543,12 @@ def d4(ctx):
         okz = ("zeros_like" in x0s) or x0s.startswith("0.0 *") or x0s.startswith("0 *")
         ctx.decide(rule, okz, b, c, construct=f"{q}:adjoint-start", detail=f"start {x0s}",
                    bad_detail=f"adjoint solve does not start from zero (`{x0s}`)")
+        tr_ = actual(c, ps, ps[4])
+        trx = src(expand(bcfg, node, tr_)) if tr_ is not None else "?"
+        ok_tr = trx.replace(" ", "") in ("np.inf", "onp.inf", "numpy.inf", "jnp.inf", "float('inf')", 'float("inf")', "math.inf", "np.Inf")
+        ctx.decide(rule, ok_tr, b, c, construct=f"{q}:adjoint-solve-unbounded", detail=f"trust-region radius of the adjoint solve is {trx}",
+                   bad_detail=f"the adjoint (linear) solve is run with trust-region radius `{trx}`: the CG iteration stops at that boundary, so for a large "
+                              f"cotangent or a soft Hessian the adjoint vector is not H^-1 v and every sensitivity is wrong")
         hv = actual(c, ps, ps[2])
         hvx = src(expand(bcfg, node, hv))
         okh = "hessian_vec" in hvx and "-" not in hvx
@@ -563,6 +587,13 @@ def _canon_ctor(fn_node, coords_expr):
     return out
 
 
+def _clone(u):
+    v = Unifier(u.scope)
+    v.locals = set(u.locals)
+    v.bind = dict(u.bind)
+    return v
+
+
 def d5(ctx):
     rule = "D5/T6-adjoint-function-space"
     a = ctx.need(f"{AFS}:construct_function_space_for_adjoint")
@@ -572,25 +603,54 @@ def d5(ctx):
         if dotted(c.func) and dotted(c.func).endswith("construct_function_space_from_parent_element"):
             ctx.proved(rule, a, c, construct="delegates", detail="adjoint constructor delegates to the ordinary constructor")
             return
-    ca = _canon_ctor(a.node, "coords")
-    cf = _canon_ctor(f.node, "mesh.coords")
-    keys = ("shapes =", "shapeGrads =", "if mode2D", "vols =")
-    for k in keys:
-        sa = [s for s in ca if s.startswith(k)]
-        sf = [s for s in cf if s.startswith(k)]
-        if len(sa) != 1 or len(sf) != 1:
-            ctx.undecided(rule, a, None, construct=f"stmt:{k}", detail=f"statement `{k}...` found {len(sa)}x / {len(sf)}x")
+    # sibling agreement statement by statement: the ordinary constructor's statements, with `mesh.coords` replaced by the adjoint
+    # constructor's coordinate parameter, must each unify (names of locals are pattern variables, bound consistently) with
+    # exactly one statement of the adjoint constructor; the returned FunctionSpace must then unify as well.
+    import copy
+    fmesh = f.params()[0]
+    cpar = a.params()[0]
+
+    class _Sub(ast.NodeTransformer):
+        def visit_Attribute(self, n):
+            if n.attr == "coords" and isinstance(n.value, ast.Name) and n.value.id == fmesh:
+                return ast.Name(id=cpar, ctx=ast.Load())
+            return self.generic_visit(n)
+
+        def visit_Call(self, n):
+            n = self.generic_visit(n)
+            if isinstance(n.func, ast.Attribute) and isinstance(n.func.value, ast.Name) and n.func.value.id == "jax" and n.func.attr == "vmap":
+                n.func = ast.Name(id="vmap", ctx=ast.Load())
+            return n
+    u = Unifier(a, extra_locals=())
+    # the rebuilt mesh shadows the parameter `mesh`: it is a local of the adjoint constructor only after its rebuild statement
+    u.locals.discard(a.params()[2])
+    a_stmts = [st for st in a.node.body if not (isinstance(st, ast.Expr) and isinstance(st.value, ast.Constant))]
+    roles = ("shapes", "shapeGrads", "mode-table", "vols")
+    k = 0
+    for st_f in f.node.body:
+        if isinstance(st_f, ast.Expr) and isinstance(st_f.value, ast.Constant):
             continue
-        ctx.decide(rule, sa[0] == sf[0], a, None, construct=f"stmt:{k.strip()}",
-                   detail="identical modulo mesh.coords -> coords",
-                   bad_detail=f"adjoint: `{sa[0][:120]}` vs ordinary: `{sf[0][:120]}`")
-    # returned FunctionSpace fields in the same order
-    ra, rf = a.returns(), f.returns()
-    ok = len(ra) == 1 and len(rf) == 1 and isinstance(ra[0], ast.Call) and isinstance(rf[0], ast.Call) and \
-        [src(x) for x in ra[0].args] == [src(x) for x in rf[0].args]
-    ctx.decide(rule, ok, a, ra[0] if ra else None, construct="return-fields",
-               detail="FunctionSpace(shapes, vols, shapeGrads, mesh, quadratureRule, isAxisymmetric)",
-               bad_detail="adjoint constructor fills the FunctionSpace fields differently from the ordinary constructor")
+        if isinstance(st_f, ast.Return):
+            tf = _Sub().visit(copy.deepcopy(st_f.value))
+            if isinstance(tf, ast.Call):
+                tf.func = ast.Attribute(value=ast.Name(id="FunctionSpace", ctx=ast.Load()), attr="FunctionSpace", ctx=ast.Load()) \
+                    if isinstance(tf.func, ast.Name) else tf.func
+            ra = a.returns()
+            ok = len(ra) == 1 and u.match(ra[0], tf)
+            ctx.decide(rule, ok, a, ra[0] if ra else None, construct="return-fields",
+                       detail="FunctionSpace(shapes, vols, shapeGrads, mesh, quadratureRule, isAxisymmetric) with the same wiring as the ordinary constructor",
+                       bad_detail=f"adjoint constructor returns `{src(ra[0]) if ra else '?'}`: the FunctionSpace fields are not filled like in the ordinary constructor `{src(st_f.value)}`")
+            continue
+        tf = _Sub().visit(copy.deepcopy(st_f))
+        hits = [st_a for st_a in a_stmts if Unifier.match(_clone(u), st_a, tf)]
+        role = roles[k] if k < len(roles) else f"stmt{k}"
+        k += 1
+        if len(hits) == 1:
+            u.match(hits[0], tf)
+        ctx.decide(rule, len(hits) == 1, a, hits[0] if hits else None, construct=f"stmt:{role}",
+                   detail="identical to the ordinary constructor modulo mesh.coords -> coords and names of locals",
+                   bad_detail=f"no statement of the adjoint constructor agrees with the ordinary constructor's `{src(st_f)[:140]}` (modulo mesh.coords -> {cpar} and "
+                              f"names of locals): the rebuilt function space differs from one built on the moved mesh")
     # rebuilt mesh carries the perturbed coordinates and every other field of the input mesh
     for st in walk_local(a.node):
         if isinstance(st, ast.Assign) and isinstance(st.value, ast.Call) and dotted(st.value.func) and dotted(st.value.func).endswith("Mesh"):
@@ -648,6 +708,11 @@ def variants(repo):
                 sub_in_func("nonlinear_solve_with_state_b", "                                                             v,\n",
                             "                                                             -v,\n"),
                 "D4/T7-adjoint-sign"),
+        Variant("adjoint solve inside a finite trust region", N,
+                sub_in_func("nonlinear_solve_with_state_b", "np.inf", "settings.tr_size"), "D4/T7-adjoint-sign"),
+        Variant("adjoint space: axisymmetric branch copies the cartesian one", A,
+                sub("        el_vols = compute_element_volumes_axisymmetric\n", "        el_vols = compute_element_volumes\n"), "D5/T6-adjoint-function-space"),
+        Variant("alpha-rename adjoint function space", A, alpha_rename("construct_function_space_for_adjoint"), None),
         Variant("adjoint space uses mesh.coords for volumes", A,
                 sub("vols = vmap(el_vols, (None, 0, None, 0, None))(coords,", "vols = vmap(el_vols, (None, 0, None, 0, None))(mesh.coords,"),
                 "D5/T6-adjoint-function-space"),
